@@ -1,5 +1,6 @@
 import Dino.SHCheck2
 import DinoProofs.Lemmas.SH
+import DinoProofs.Lemmas.SHFast
 import Mathlib.Algebra.Order.BigOperators.Ring.Finset
 import Mathlib.Algebra.Order.BigOperators.Group.Finset
 import Mathlib.Algebra.Order.Ring.Abs
@@ -163,6 +164,43 @@ theorem ent3_p (c : ICert) (r j l : Nat) (hr : r < c.R) (hj : j < c.J) (hl : l <
 theorem ent_w (c : ICert) (j : Nat) (hj : j < c.J) : ent c.ratBasis.w j = sc (ent c.w j) c.ew :=
   ent_map_range (fun j => sc (ent c.w j) c.ew) c.J j hj
 
+/-! ### the fast layout: `ratBasis` is `fastBasis` of the stored basis -/
+
+theorem dup_append {α : Type} (a b : List α) : dup (a ++ b) = dup a ++ dup b := by
+  induction a with
+  | nil => rfl
+  | cons x t ih => simp [dup, ih]
+
+theorem map_range_half {α : Type} (T : ℕ → α) (n : ℕ) :
+    (List.range (2 * n)).map (fun r => T (r / 2)) = dup ((List.range n).map T) := by
+  induction n with
+  | zero => rfl
+  | succ n ih =>
+    have : 2 * (n + 1) = 2 * n + 1 + 1 := by ring
+    rw [this, List.range_succ, List.range_succ, List.map_append, List.map_append, ih,
+      List.range_succ, List.map_append, dup_append]
+    have e1 : 2 * n / 2 = n := by omega
+    have e2 : (2 * n + 1) / 2 = n := by omega
+    simp [dup, e1, e2]
+
+/-- the basis as `FastSphericalHarmonics.basis` stores it: one table per `|m|` (`R/2` tables) -/
+def rawBasis (c : ICert) : Basis ℚ :=
+  ⟨c.ratBasis.f,
+   (List.range (c.R / 2)).map fun t => (List.range c.J).map fun j => (List.range c.L).map fun l =>
+     sc (ent ((c.pt.getD t []).getD l []) j) c.ep,
+   c.ratBasis.w⟩
+
+theorem ratBasis_eq_fast (c : ICert) (hp : c.pdiv = 2) (hR : c.R % 2 = 0) :
+    c.ratBasis = fastBasis c.rawBasis := by
+  obtain ⟨n, hn⟩ : ∃ n, c.R = 2 * n := ⟨c.R / 2, by omega⟩
+  unfold fastBasis rawBasis
+  have : c.ratBasis.p = dup ((List.range (c.R / 2)).map fun t => (List.range c.J).map fun j =>
+      (List.range c.L).map fun l => sc (ent ((c.pt.getD t []).getD l []) j) c.ep) := by
+    have h2 : c.R / 2 = n := by omega
+    rw [h2, ← map_range_half]
+    simp only [ratBasis, pcol, hp, hn]
+  rw [← this]
+
 /-! ### consequences of `shapeOk` -/
 
 theorem shapeOk_w {c : ICert} (h : c.shapeOk = true) : c.w.length = c.J := by
@@ -294,10 +332,6 @@ theorem gramOk_sound (c : ICert) (mask : List (List Bool)) (k : Nat) (hs : c.sha
 
 /-! ### integrals of the basis functions -/
 
-/-- `∫Y_{r,l}` under the grid's quadrature (unit radius): `(Σ_i f[i][r])·(Σ_j w[j] p[r][j][l])` -/
-def _root_.Dino.SH.colInt {K : Type} [CommRing K] (b : Basis K) (N J r l : Nat) : K :=
-  (∑ i ∈ range N, ent2 b.f i r) * ∑ j ∈ range J, ent b.w j * ent3 b.p r j l
-
 /-- the constant `(0,0)` basis function of the certificate -/
 def b0q (c : ICert) : ℚ := sc c.b0 (c.ef + c.ep)
 
@@ -345,7 +379,7 @@ theorem b0sqOk_sound (c : ICert) (h : c.b0sqOk = true) :
     have h2 : ((((c.b0 * c.b0).toNat : ℕ) : Int) : ℚ) = ((c.b0 * c.b0 : Int) : ℚ) := by rw [this]
     push_cast at h2
     exact h2
-  obtain ⟨h1, h2⟩ := h
+  obtain ⟨⟨_, h1⟩, h2⟩ := h
   rw [show b0sqLo = 87496354673 from rfl] at h1
   rw [show b0sqHi = 87496355774 from rfl] at h2
   have q1 : (87496354673 : ℚ) * 2 ^ (2 * (c.ef + c.ep)) ≤ (((c.b0 * c.b0).toNat : ℕ) : ℚ) * 2 ^ 40 := by
@@ -361,6 +395,12 @@ theorem b0sqOk_sound (c : ICert) (h : c.b0sqOk = true) :
   constructor
   · rw [div_le_div_iff₀ (by positivity) he2]; linarith
   · rw [div_le_div_iff₀ he2 (by positivity)]; linarith
+
+theorem b0q_pos (c : ICert) (h : c.b0sqOk = true) : 0 < c.b0q := by
+  simp only [b0sqOk, Bool.and_eq_true, decide_eq_true_eq] at h
+  unfold b0q sc
+  have : (0 : ℚ) < c.b0 := by exact_mod_cast h.1.1
+  positivity
 
 /-! ### quadrature exactness -/
 
